@@ -50,6 +50,9 @@ pub fn run_c03(case: &Value, em: &mut Emitter) {
     for (how, _m, _doc, d) in realise(case) {
         let p1 = proj_map(&d);
         em.emit("encode", json!({"how": how, "p1": p1, "via": "direct"}), encode_out(&d));
+        // the same map written into a sink that accepts 1..4096 bytes per call
+        let cap = [1usize, 7, 64, 4096][(p1["ntok"].as_u64().unwrap_or(0) % 4) as usize];
+        em.emit("encode", json!({"how": how, "p1": p1, "via": "short_sink"}), encode_out_short(&d, cap));
         // maps produced by rewrite / flatten / adjust_mappings
         match &d {
             DecodedMap::Regular(sm) => {
